@@ -13,6 +13,7 @@ Reads (python `ast`, closed list of shapes, anything else raises Untranslatable 
           return isinstance(event, self.__class__) and event.get_X() == self.get_X()      -> DupSameClassObj
       where get_X is a method of a base class whose body is `return self._x` and whose __init__ stores its first argument in
       `self._x`.  A class with a non-trivial is_duplicate must not have subclasses in the table (isinstance would accept them).
+* core/events/handlers.py       trigger: shape TRIGGER_SHAPE below (every synchronous handler shielded on its own)
 * conf/settings.py              class core: event_queue_size: int = <int>
 * core/sessions.py              SESSION_EXPIRY_FACTOR = <int>;
                                 Session.reset_and_wait as a straight-line program over the statement shapes listed in
@@ -32,6 +33,7 @@ FILES = {
     'slaves': 'qtoggleserver/slaves/events.py',
     'settings': 'qtoggleserver/conf/settings.py',
     'sessions': 'qtoggleserver/core/sessions.py',
+    'handlers': 'qtoggleserver/core/events/handlers.py',
 }
 EVENT_MODULES = [
     ('base', 'qtoggleserver.core.events.base'),
@@ -437,6 +439,109 @@ def handler_filter(tree):
     return True
 
 
+def _is_logger_call(st):
+    return (isinstance(st, ast.Expr) and isinstance(st.value, ast.Call) and isinstance(st.value.func, ast.Attribute)
+            and _is_name(st.value.func.value, 'logger'))
+
+
+def _handle_event_call(e, h, ev):
+    """<h>.handle_event(<ev>)"""
+    return (isinstance(e, ast.Call) and isinstance(e.func, ast.Attribute) and e.func.attr == 'handle_event'
+            and _is_name(e.func.value, h) and len(e.args) == 1 and _is_name(e.args[0], ev) and not e.keywords)
+
+
+TRIGGER_SHAPE = """
+    async def trigger(event):
+        if not _enabled: return
+        [logger.<level>(...)]
+        await event.init_params()
+        for handler in _registered_handlers:
+            if handler.is_fire_and_forget():
+                task = asyncio.create_task(handler.handle_event(event)) ; <expression statements without await>
+            else:
+                try: await handler.handle_event(event)
+                except Exception [as e]: <logger calls only>          (each synchronous handler shielded on its own)
+    class Handler: def is_fire_and_forget(self): return self.FIRE_AND_FORGET
+"""
+
+
+def trigger_shape():
+    """core/events/handlers.py:trigger dispatches to every registered handler; a failing handler cannot keep the event from
+    the handlers after it (the sessions handler is registered last at start-up).  Shape above, anything else fails closed."""
+    tree = _parse('handlers')
+    fns = [n for n in tree.body if isinstance(n, (ast.FunctionDef, ast.AsyncFunctionDef)) and n.name == 'trigger']
+    if len(fns) != 1 or not isinstance(fns[0], ast.AsyncFunctionDef) or fns[0].decorator_list:
+        raise Untranslatable('core.events.handlers.trigger not found (async def expected)')
+    fn = fns[0]
+    if len(fn.args.args) != 1 or fn.args.vararg or fn.args.kwarg or fn.args.kwonlyargs:
+        raise Untranslatable('trigger signature')
+    ev = fn.args.args[0].arg
+    body = [st for st in _body(fn) if not _is_logger_call(st)]
+    if len(body) != 3:
+        raise Untranslatable('trigger: expected enabled-guard, init_params, handler loop; found %d statements' % len(body))
+    guard, init, loop = body
+    if not (isinstance(guard, ast.If) and not guard.orelse and isinstance(guard.test, ast.UnaryOp)
+            and isinstance(guard.test.op, ast.Not) and _is_name(guard.test.operand, '_enabled')
+            and len(guard.body) == 1 and isinstance(guard.body[0], ast.Return) and guard.body[0].value is None):
+        raise Untranslatable('trigger: `if not _enabled: return` expected first')
+    if not (isinstance(init, ast.Expr) and isinstance(init.value, ast.Await) and isinstance(init.value.value, ast.Call)
+            and isinstance(init.value.value.func, ast.Attribute) and init.value.value.func.attr == 'init_params'
+            and _is_name(init.value.value.func.value, ev) and not init.value.value.args):
+        raise Untranslatable('trigger: `await event.init_params()` expected')
+    if not (isinstance(loop, ast.For) and not loop.orelse and isinstance(loop.target, ast.Name)
+            and _is_name(loop.iter, '_registered_handlers') and len(loop.body) == 1 and isinstance(loop.body[0], ast.If)):
+        raise Untranslatable('trigger: `for handler in _registered_handlers: if ...: ... else: ...` expected')
+    h = loop.target.id
+    br = loop.body[0]
+    t = br.test
+    if not (isinstance(t, ast.Call) and isinstance(t.func, ast.Attribute) and t.func.attr == 'is_fire_and_forget'
+            and _is_name(t.func.value, h) and not t.args and not t.keywords):
+        raise Untranslatable('trigger: test `handler.is_fire_and_forget()` expected')
+    # fire-and-forget branch: a task is created, nothing is awaited, nothing can leave the loop
+    faf = br.body
+    first = faf[0] if faf else None
+    if not (isinstance(first, ast.Assign) and len(first.targets) == 1 and isinstance(first.targets[0], ast.Name)
+            and isinstance(first.value, ast.Call) and isinstance(first.value.func, ast.Attribute)
+            and first.value.func.attr == 'create_task' and _is_name(first.value.func.value, 'asyncio')
+            and len(first.value.args) == 1 and _handle_event_call(first.value.args[0], h, ev)):
+        raise Untranslatable('trigger: fire-and-forget branch must start with task = asyncio.create_task(handler.handle_event(event))')
+    for st in faf[1:]:
+        if not (isinstance(st, ast.Expr) and isinstance(st.value, ast.Call)):
+            raise Untranslatable('trigger: fire-and-forget branch statement ' + type(st).__name__)
+        for n in ast.walk(st):
+            if isinstance(n, (ast.Await, ast.Yield, ast.YieldFrom)):
+                raise Untranslatable('trigger: fire-and-forget branch awaits')
+    # synchronous branch: exactly one try around exactly this handler's call
+    sync = br.orelse
+    if not (len(sync) == 1 and isinstance(sync[0], ast.Try) and not sync[0].orelse and not sync[0].finalbody
+            and len(sync[0].body) == 1 and isinstance(sync[0].body[0], ast.Expr)
+            and isinstance(sync[0].body[0].value, ast.Await) and _handle_event_call(sync[0].body[0].value.value, h, ev)
+            and len(sync[0].handlers) == 1):
+        raise Untranslatable('trigger: synchronous handlers are not shielded one by one (try around the single call expected)')
+    eh = sync[0].handlers[0]
+    if not (_is_name(eh.type, 'Exception') and eh.body and all(_is_logger_call(x) or isinstance(x, ast.Pass) for x in eh.body)):
+        raise Untranslatable('trigger: `except Exception` with logging only expected')
+    # Handler.is_fire_and_forget
+    base = _parse('base')
+    cls = [n for n in base.body if isinstance(n, ast.ClassDef) and n.name == 'Handler']
+    if len(cls) != 1:
+        raise Untranslatable('class Handler not found')
+    m = [n for n in cls[0].body if isinstance(n, ast.FunctionDef) and n.name == 'is_fire_and_forget']
+    if len(m) != 1:
+        raise Untranslatable('Handler.is_fire_and_forget not found')
+    b = _body(m[0])
+    if not (len(b) == 1 and isinstance(b[0], ast.Return) and _self_attr(b[0].value) == 'FIRE_AND_FORGET'):
+        raise Untranslatable('Handler.is_fire_and_forget is not `return self.FIRE_AND_FORGET`')
+    # the sessions handler is synchronous
+    sess = _parse('sessions')
+    sc = [n for n in sess.body if isinstance(n, ast.ClassDef) and n.name == 'SessionsEventHandler']
+    faf_attr = [st.value for st in (sc[0].body if sc else []) if isinstance(st, ast.Assign) and len(st.targets) == 1
+                and _is_name(st.targets[0], 'FIRE_AND_FORGET')]
+    if not (len(faf_attr) == 1 and isinstance(faf_attr[0], ast.Constant) and faf_attr[0].value is False):
+        raise Untranslatable('SessionsEventHandler.FIRE_AND_FORGET = False expected')
+    return True
+
+
 def expiry_factor(tree):
     for st in tree.body:
         if (isinstance(st, ast.Assign) and len(st.targets) == 1 and _is_name(st.targets[0], 'SESSION_EXPIRY_FACTOR')):
@@ -459,6 +564,7 @@ def read_all():
         'expiry_factor': expiry_factor(tree),
         'reset_prog': reset_program(tree),
         'handler_filter': handler_filter(tree),
+        'trigger_shields_each_handler': trigger_shape(),
     }
 
 
@@ -474,6 +580,9 @@ def coq_text(info):
         + 'Definition default_event_queue_size : Z := %s.\n' % coq.z(info['queue_size'])
         + 'Definition session_expiry_factor : Z := %s.\n' % coq.z(info['expiry_factor'])
         + 'Definition reset_prog : list rstmt := [%s].\n' % '; '.join(info['reset_prog'])
+        + '(* core/events/handlers.py:trigger shields every synchronous handler on its own, fire-and-forget handlers run as tasks;\n'
+        + '   SessionsEventHandler.FIRE_AND_FORGET = False: the Trigger step reaches the sessions handler whatever the others do *)\n'
+        + 'Definition trigger_shields_each_handler : bool := %s.\n' % coq.boolean(info['trigger_shields_each_handler'])
     )
 
 
@@ -487,6 +596,6 @@ def translate(ctx=None):
         'detail': {
             'classes': [[r['class'], r['type'], r['required'], r['dup']] for r in info['table']],
             'event_queue_size': info['queue_size'], 'expiry_factor': info['expiry_factor'],
-            'reset_and_wait': info['reset_prog'],
+            'reset_and_wait': info['reset_prog'], 'trigger_shields_each_handler': info['trigger_shields_each_handler'],
         },
     }
